@@ -160,14 +160,12 @@ pub fn layout(p: &[Stmt]) -> Layout {
     for (k, s) in p.iter().enumerate() {
         let Some((n, l)) = operand(s) else { continue };
         let u = l.name.to_ascii_uppercase();
-        let all: Vec<_> = binds.iter().filter(|b| b.0 == u).collect();
-        if all.is_empty() { violated.insert(V::CouldNotFindLabel); continue; }
+        // the meaning of a name is its first binding
+        let Some(first) = binds.iter().find(|b| b.0 == u) else { violated.insert(V::CouldNotFindLabel); continue };
         if n == 0 { continue; }
-        if all.iter().any(|b| b.2) { violated.insert(V::OffsetExternal); }
-        if let Some((_, a)) = place[k] {
-            if all.iter().any(|b| !b.2 && field(n, b.1, a).is_none()) {
-                violated.insert(if n == 9 { V::Offset9 } else { V::Offset11 });
-            }
+        if first.2 { violated.insert(V::OffsetExternal); }
+        else if let Some((_, a)) = place[k] {
+            if field(n, first.1, a).is_none() { violated.insert(if n == 9 { V::Offset9 } else { V::Offset11 }); }
         }
     }
     let ne: Vec<_> = blocks.iter().filter(|b| b.0 < b.1).collect();
